@@ -5,6 +5,6 @@
 cd /verif
 out=evidence/determinism.txt
 echo "# $(date -u +%FT%TZ) determinism self-test (seeds x processes): diverged seeds" > $out.tmp
-for id in C05 C27 C29 C31 C34 C37; do ./check determinism $id 200 6 2>&1 | tail -1 | sed 's/^/exact          /' >> $out.tmp; done
-for id in C11 C22 C24 C18 C20 C19 C13 C14 C23 C26 C21 C30 C01 C04 C06 C12 C39; do ./check determinism $id 64 3 2>&1 | tail -1 | sed 's/^/decision-exact /' >> $out.tmp; done
+for id in C05 C27 C29 C31 C34 C37; do ./check determinism $id 200 6 2>&1 | grep "^determinism" | sed 's/^/exact          /' >> $out.tmp; done
+for id in C11 C22 C24 C18 C20 C19 C13 C14 C23 C26 C21 C30 C01 C04 C06 C12 C39; do ./check determinism $id 64 3 2>&1 | grep "^determinism" | sed 's/^/decision-exact /' >> $out.tmp; done
 mv $out.tmp $out; cat $out
